@@ -57,7 +57,9 @@ def injected_histories(rng, name, length):
     start = 1 if needs_ref else 0
     for pos in range(start, len(base) + 1):
         b = rng.choice(bads)
-        out.append(base[:pos] + [("update", b, pick_variant(rng, kind, b))] + base[pos:])
+        # (batch detectors: the malformed input is handed to set_reference as often as to update - a refused call of either kind leaves no trace)
+        op = "set_reference" if needs_ref and rng.random() < 0.5 else "update"
+        out.append(base[:pos] + [(op, b, pick_variant(rng, kind, b))] + base[pos:])
     return out
 
 
